@@ -1395,7 +1395,13 @@ impl Core {
 		Ok(core)
 	}
 
-	pub(crate) async fn commit(&self, batch: Batch, sync: bool, start_seq: u64) -> Result<()> {
+	pub(crate) async fn commit(
+		&self,
+		batch: Batch,
+		sync: bool,
+		start_seq: u64,
+		epoch: Option<u64>,
+	) -> Result<()> {
 		// Commit the batch using the commit pipeline. `start_seq` is the
 		// transaction's snapshot seq (used by the oracle's write-write
 		// conflict check). The write keys are derived from `batch.entries`
@@ -1414,7 +1420,7 @@ impl Core {
 			return Err(Error::ArenaFull);
 		}
 
-		self.commit_pipeline.commit(batch, sync, start_seq).await
+		self.commit_pipeline.commit_in_epoch(batch, sync, start_seq, epoch).await
 	}
 
 	pub(crate) fn seq_num(&self) -> u64 {
